@@ -11,6 +11,7 @@ fn main() {
         "c09" => pv::c09::run(&args),
         "c13" => pv::c13::run(&args),
         "c18" => pv::c18::run(&args),
+        "c05" => pv::c05::run(&args),
         other => {
             eprintln!("unknown runner {other}");
             std::process::exit(2);
